@@ -80,7 +80,7 @@ fn convert_data(options: &Options) -> Result<(), DarkluaError> {
 
     let lua_code = match format {
         DataFormat::Json => darklua_core::convert_data(
-            json5::from_str::<serde_json::Value>(&input).map_err(DarkluaError::from)?,
+            json5::from_str::<darklua_core::Json5Value>(&input).map_err(DarkluaError::from)?,
         ),
         DataFormat::Yaml => darklua_core::convert_data(
             serde_yaml::from_str::<serde_yaml::Value>(&input).map_err(DarkluaError::from)?,
